@@ -112,8 +112,8 @@ partial def plantAt (s : Stmt) (site : Site) (text : String) (pos : Nat) : Stmt 
 def kfC11 (r : Rule) (ctx : String) : String :=
   let inGroup := ctx.toList.take 6 == "group>".toList
   let below := ctx ≠ "top"
-  -- a nested statement inside an operand of a combination of nested statements
-  let deepInOperand := (ctx.splitOn "operand>nested>").length > 1
+  -- anywhere inside an operand of a combination of nested statements
+  let deepInOperand := (ctx.splitOn "operand>").length > 1
   if inGroup && (r = .twoPairs || r = .typeMix) then "C11-rule-not-enforced-inside-pair-group"
   else if below && r = .twoPairs then "C11-two-pairs-below-top-level-other-code"
   else if deepInOperand && (r = .typeMix || r = .mixedNested) then "C11-combination-rule-deep-inside-combination-operand"
@@ -172,6 +172,10 @@ def genC11Cases (tier : String) (seed : Nat) : Array Case := Id.run do
   out := out.push { id := "c11-deep-witness", op := "conv", args := Json.mkObj [("text", (deepW : Json)), ("id", ("1" : Json))],
                     exp := Json.str Rule.typeMix.code, tag := "type-mix@witness",
                     note := Json.mkObj [("kf", ("C11-combination-rule-deep-inside-combination-operand" : Json)), ("rule", ("type-mix" : Json)), ("ctx", ("operand>nested>top" : Json))] }
+  let deepW2 := "A(x) I(y) Cex{Cex{A(a) I(b)} [XOR] {Cex{F(x113)} [XOR] {Cex{P{P{A(ta) I(tb)} [XOR] {P{A(tc) I(td)} [AND] P,p{A(te) I(tf)}}} E,p((p [XOR] m)) Cac((f [AND] c))} [OR] Cex{Bind,p(o)}}}}"
+  out := out.push { id := "c11-deep-witness2", op := "conv", args := Json.mkObj [("text", (deepW2 : Json)), ("id", ("1" : Json))],
+                    exp := Json.str Rule.typeMix.code, tag := "type-mix@witness",
+                    note := Json.mkObj [("kf", ("C11-combination-rule-deep-inside-combination-operand" : Json)), ("rule", ("type-mix" : Json)), ("ctx", ("operand>top" : Json))] }
   -- a lone closing or opening bracket in statements that otherwise contain no bracket of that kind
   for (t, k) in [("A(Program Manager) D(may) I(inspect) Bdir(certified operations)}", 0), ("A(actor) I(act) } Bdir(x)", 1),
                  ("{ A(actor) I(act)", 2), ("A(actor) I(act) Cac{A(x) I(y)", 3), ("A(actor) I(act)) Bdir(x)", 4), ("A(actor I(act)", 5),
